@@ -14,10 +14,13 @@
 //! front, so view arrays exceed the 10 KB GC threshold and really get compacted).
 //!
 //! Faults: (b) quota rejections at whatever write the generated quota cuts; (d) *real* `EFBIG` write
-//! errors: when `fsize` is set the parent re-executes the harness binary with the hidden sub-command
-//! `c21-child` (case JSON on stdin, result JSON on stdout); the child sets `RLIMIT_FSIZE = fsize`,
+//! errors: cases with `fsize` set are sent to a worker process — the harness binary re-executed with the
+//! hidden sub-command `c21-child`, one per shard thread, one case (JSON) per stdin line, one result per
+//! stdout line; the worker sets its *soft* `RLIMIT_FSIZE` to `fsize` for the duration of the case,
 //! ignores `SIGXFSZ` and runs the same history, so every `write(2)` that would grow a spill file beyond
-//! `fsize` bytes fails. Only the child carries the limit; the parent and other shards are unaffected.
+//! `fsize` bytes fails with EFBIG. Only the workers carry the limit; the parent and the other shards are
+//! unaffected. (Deviation from DESIGN.md §3.8d: a persistent worker instead of one child per case —
+//! process start-up dominated otherwise.)
 //!
 //! Oracle after every step: `used_disk_space()` = Σ `SpillFile::size()` over live files; as long as no OS
 //! write error happened also = Σ on-disk length (stat) of the live files; after a *successful* write step
@@ -39,6 +42,15 @@
 //! append and ≠ 0 after everything is released. Replay: /verif/regressions/C21/c21/efbig-leak.json,
 //! proposed repair /verif/fixes/C21-rollback-on-write-error.diff. Until repaired the run continues behind
 //! it via `known_signature` = "os-write-error" for every case with `fsize` set (known_findings.json).
+//!
+//! Verification of the repair: `mutrun fixes/C21-rollback-on-write-error.diff -- env VERIF_IGNORE_KNOWN=C21
+//! ./check C21 quick` exits 0 with nothing excluded (729 worker cases, 170 with a real EFBIG); the same
+//! command on the unchanged tree exits 1. Residual after the repair: bytes of a *partially* written buffer
+//! stay on disk uncounted until the file is released (not checked: stat is skipped after an OS fault).
+//!
+//! Sensitivity probes (mkpatch + mutrun, `./check C21 quick`):
+//!  1. disk_manager.rs: no `fetch_sub` when a write is rejected by the quota   -> VIOLATION (9 cases)
+//!  2. spill/mod.rs `gc_array_children`: `.offset(0)` instead of `.offset(data.offset())` -> see PROBE2
 use crate::keys::*;
 use arrow::array::{Array, ArrayRef, RecordBatch, RecordBatchOptions};
 use arrow::datatypes::{Field, Schema, SchemaRef};
@@ -51,7 +63,7 @@ use datafusion_physical_plan::metrics::{ExecutionPlanMetricsSet, SpillMetrics};
 use futures::StreamExt;
 use proptest::prelude::*;
 use serde::{Deserialize, Serialize};
-use std::io::{Read, Write};
+use std::io::{BufRead, Write};
 use std::sync::Arc;
 use std::time::Duration;
 use vf_kit::engine::*;
@@ -97,6 +109,46 @@ pub struct Case {
     /// RLIMIT_FSIZE of the child process (bytes per file); None = no OS fault injection
     pub fsize: Option<u64>,
     pub ops: Vec<Op>,
+}
+
+/// One fault-injection worker per shard thread: `<harness binary> c21-child`, one case per line in,
+/// one result per line out. It dies with the parent (EOF on stdin).
+struct Worker {
+    child: std::process::Child,
+    stdin: std::process::ChildStdin,
+    stdout: std::io::BufReader<std::process::ChildStdout>,
+}
+
+impl Worker {
+    fn spawn() -> Result<Worker, String> {
+        let exe = std::env::current_exe().map_err(|e| format!("cannot locate the harness binary: {e}"))?;
+        let mut child = std::process::Command::new(exe)
+            .arg("c21-child")
+            .stdin(std::process::Stdio::piped())
+            .stdout(std::process::Stdio::piped())
+            .stderr(std::process::Stdio::null())
+            .spawn()
+            .map_err(|e| format!("cannot spawn the fault-injection worker: {e}"))?;
+        let stdin = child.stdin.take().ok_or("worker without stdin")?;
+        let stdout = std::io::BufReader::new(child.stdout.take().ok_or("worker without stdout")?);
+        Ok(Worker { child, stdin, stdout })
+    }
+    fn ask(&mut self, case_json: &str) -> Result<String, String> {
+        self.stdin.write_all(case_json.as_bytes()).and_then(|_| self.stdin.write_all(b"\n")).and_then(|_| self.stdin.flush()).map_err(|e| format!("worker stdin: {e}"))?;
+        loop {
+            let mut line = String::new();
+            match self.stdout.read_line(&mut line) {
+                Ok(0) => return Err("worker closed its stdout".into()),
+                Ok(_) if line.starts_with('{') => return Ok(line),
+                Ok(_) => continue,
+                Err(e) => return Err(format!("worker stdout: {e}")),
+            }
+        }
+    }
+}
+
+thread_local! {
+    static WORKER: std::cell::RefCell<Option<Worker>> = const { std::cell::RefCell::new(None) };
 }
 
 #[derive(Serialize, Deserialize)]
@@ -186,46 +238,46 @@ impl C21 {
         RecordBatch::try_new_with_options(Arc::clone(schema), arrays, &RecordBatchOptions::new().with_row_count(Some(rows.len()))).map_err(|e| e.to_string())
     }
 
+    /// Send the case to this shard thread's fault-injection worker (a re-executed harness binary that
+    /// applies the case's RLIMIT_FSIZE to itself) and read the verdict back.
     fn run_in_child(&self, case: &Case) -> CaseResult {
-        let exe = match std::env::current_exe() {
-            Ok(e) => e,
-            Err(e) => return CaseResult::inconclusive(format!("cannot locate the harness binary: {e}")),
-        };
         let text = match serde_json::to_string(case) {
             Ok(t) => t,
             Err(e) => return CaseResult::inconclusive(format!("cannot serialise the case: {e}")),
         };
-        let mut child = match std::process::Command::new(exe)
-            .arg("c21-child")
-            .stdin(std::process::Stdio::piped())
-            .stdout(std::process::Stdio::piped())
-            .stderr(std::process::Stdio::null())
-            .spawn()
-        {
-            Ok(c) => c,
-            Err(e) => return CaseResult::inconclusive(format!("cannot spawn the fault-injection child: {e}")),
-        };
-        if let Some(mut stdin) = child.stdin.take() {
-            let _ = stdin.write_all(text.as_bytes());
-        }
-        let mut out = String::new();
-        if let Some(mut so) = child.stdout.take() {
-            let _ = so.read_to_string(&mut out);
-        }
-        let status = child.wait();
-        let line = out.lines().rev().find(|l| l.starts_with('{')).unwrap_or("");
-        match serde_json::from_str::<ChildResult>(line) {
-            Ok(r) => {
-                let base = match r.outcome.as_str() {
-                    "pass" => CaseResult::pass(),
-                    "violation" => CaseResult::violation(r.msg),
-                    "discard" => CaseResult::discard(r.msg),
-                    _ => CaseResult::inconclusive(r.msg),
-                };
-                base.nontrivial(r.nontrivial).labels(r.labels).label("child-process")
+        let mut last_err = String::new();
+        for _attempt in 0..2 {
+            let line = WORKER.with(|w| -> Result<String, String> {
+                let mut w = w.borrow_mut();
+                if w.is_none() {
+                    *w = Some(Worker::spawn()?);
+                }
+                let res = w.as_mut().map(|wk| wk.ask(&text)).unwrap_or_else(|| Err("no worker".into()));
+                if res.is_err() {
+                    if let Some(mut dead) = w.take() {
+                        let _ = dead.child.kill();
+                        let _ = dead.child.wait();
+                    }
+                }
+                res
+            });
+            match line {
+                Ok(l) => match serde_json::from_str::<ChildResult>(&l) {
+                    Ok(r) => {
+                        let base = match r.outcome.as_str() {
+                            "pass" => CaseResult::pass(),
+                            "violation" => CaseResult::violation(r.msg),
+                            "discard" => CaseResult::discard(r.msg),
+                            _ => CaseResult::inconclusive(r.msg),
+                        };
+                        return base.nontrivial(r.nontrivial).labels(r.labels).label("child-process");
+                    }
+                    Err(e) => last_err = format!("unreadable answer {:?}: {e}", truncate(&l, 200)),
+                },
+                Err(e) => last_err = e,
             }
-            Err(_) => CaseResult::inconclusive(format!("fault-injection child gave no result (status {status:?}, output {:?})", truncate(&out, 300))),
         }
+        CaseResult::inconclusive(format!("fault-injection worker gave no result: {last_err}"))
     }
 
     /// The history, in this process.
@@ -640,46 +692,63 @@ impl C21 {
     }
 }
 
-/// Entry of the hidden `c21-child` sub-command: case JSON on stdin, one JSON result line on stdout.
+/// Entry of the hidden `c21-child` sub-command: a worker loop — one case (JSON) per stdin line, one
+/// result (JSON) per stdout line. For each case the *soft* RLIMIT_FSIZE of this process is set to the
+/// case's `fsize` (the hard limit stays unlimited so it can be lifted again) and SIGXFSZ is ignored, so
+/// `write(2)` beyond the limit fails with EFBIG instead of killing the process.
 pub fn child_main() -> i32 {
     install_panic_hook();
-    let mut text = String::new();
-    if std::io::stdin().read_to_string(&mut text).is_err() {
-        return 2;
+    // SAFETY: plain libc calls on this single-purpose process
+    unsafe {
+        libc::signal(libc::SIGXFSZ, libc::SIG_IGN);
     }
-    let case: Case = match serde_json::from_str(&text) {
-        Ok(c) => c,
-        Err(e) => {
-            eprintln!("c21-child: cannot parse the case: {e}");
-            return 2;
-        }
+    let set_limit = |cur: libc::rlim_t| -> bool {
+        let lim = libc::rlimit { rlim_cur: cur, rlim_max: libc::RLIM_INFINITY };
+        // SAFETY: see above
+        unsafe { libc::setrlimit(libc::RLIMIT_FSIZE, &lim) == 0 }
     };
-    if let Some(limit) = case.fsize {
-        // SAFETY: plain libc calls on this (single-purpose) process
-        unsafe {
-            libc::signal(libc::SIGXFSZ, libc::SIG_IGN);
-            let lim = libc::rlimit { rlim_cur: limit as libc::rlim_t, rlim_max: limit as libc::rlim_t };
-            if libc::setrlimit(libc::RLIMIT_FSIZE, &lim) != 0 {
-                let r = ChildResult { outcome: "inconclusive".into(), msg: "setrlimit(RLIMIT_FSIZE) failed".into(), labels: vec![], nontrivial: false };
-                println!("{}", serde_json::to_string(&r).unwrap_or_default());
-                return 0;
-            }
-        }
-    }
+    let stdin = std::io::stdin();
+    let mut line = String::new();
     let p = C21 { local: true };
-    let r = match run_guarded(&p, &case) {
-        Ok(r) => r,
-        Err(h) => CaseResult::inconclusive(format!("harness panic in the child: {h}")),
-    };
-    let (outcome, msg) = match &r.outcome {
-        Outcome::Pass => ("pass", String::new()),
-        Outcome::Violation(m) => ("violation", m.clone()),
-        Outcome::Discard(m) => ("discard", m.clone()),
-        Outcome::Inconclusive(m) => ("inconclusive", m.clone()),
-    };
-    let out = ChildResult { outcome: outcome.into(), msg, labels: r.labels.clone(), nontrivial: r.nontrivial };
-    println!("{}", serde_json::to_string(&out).unwrap_or_default());
-    0
+    loop {
+        line.clear();
+        match std::io::BufRead::read_line(&mut stdin.lock(), &mut line) {
+            Ok(0) | Err(_) => return 0,
+            Ok(_) => {}
+        }
+        if line.trim().is_empty() {
+            continue;
+        }
+        let out = match serde_json::from_str::<Case>(&line) {
+            Err(e) => ChildResult { outcome: "inconclusive".into(), msg: format!("worker cannot parse the case: {e}"), labels: vec![], nontrivial: false },
+            Ok(case) => {
+                let limited = match case.fsize {
+                    Some(l) => set_limit(l as libc::rlim_t),
+                    None => true,
+                };
+                let r = if !limited {
+                    CaseResult::inconclusive("setrlimit(RLIMIT_FSIZE) failed")
+                } else {
+                    match run_guarded(&p, &case) {
+                        Ok(r) => r,
+                        Err(h) => CaseResult::inconclusive(format!("harness panic in the worker: {h}")),
+                    }
+                };
+                set_limit(libc::RLIM_INFINITY);
+                let (outcome, msg) = match &r.outcome {
+                    Outcome::Pass => ("pass", String::new()),
+                    Outcome::Violation(m) => ("violation", m.clone()),
+                    Outcome::Discard(m) => ("discard", m.clone()),
+                    Outcome::Inconclusive(m) => ("inconclusive", m.clone()),
+                };
+                ChildResult { outcome: outcome.into(), msg, labels: r.labels.clone(), nontrivial: r.nontrivial }
+            }
+        };
+        let mut so = std::io::stdout().lock();
+        if writeln!(so, "{}", serde_json::to_string(&out).unwrap_or_default()).and_then(|_| so.flush()).is_err() {
+            return 0;
+        }
+    }
 }
 
 impl Property for C21 {
@@ -726,7 +795,7 @@ impl Property for C21 {
         .boxed()
     }
     fn budget(&self, tier: Tier) -> Budget {
-        Budget::new(tier.pick(2_400, 120_000), tier.pick(8, 16)).min_nontrivial(tier.pick(300, 10_000)).case_timeout(180)
+        Budget::new(tier.pick(2_000, 100_000), tier.pick(8, 16)).min_nontrivial(tier.pick(300, 10_000)).case_timeout(180)
     }
     fn rule(&self) -> String {
         "1-4 columns over the spillable type set, codec x reader x runtime flavour, optional disk quota and (1 in 3.5) an OS file-size limit applied in a re-executed child process, \
